@@ -456,10 +456,12 @@ def rule_patterns(ctx, R, F):
         sv = soft == 'true'
         # ---------------- AesGenerator1R
         f, A, loops, consts, loads, where = check_fn('fillAes1Rx4<%s>' % soft, sv, keys1, d1[0], 'fill')
-        name_of = {vid: v['name'] for vid, v in A.vars.items()}
+        name_of = {}
         for kn, (kb, ln) in sorted(keys1.items()):
-            got = [b for vid, b in consts.items() if name_of[vid] == kn]
-            R.check(got == [kb], 'fillAes1Rx4<%s> %s' % (soft, kn), where, expected=kb.hex(), found=[g.hex() if g else None for g in got], rule='SPEC-AESKEYS')
+            got = [vid for vid, b in consts.items() if b == kb]
+            R.check(len(got) == 1, 'fillAes1Rx4<%s> %s' % (soft, kn), where, expected=kb.hex(), found='%d constants with this value; constants present: %s' % (len(got), sorted(b.hex() for b in consts.values() if b)[:8]), rule='SPEC-AESKEYS')
+            for g_ in got:
+                name_of[g_] = kn       # a constant is identified by its value, not by the name of the variable that holds it
         lane = {vid: d[2] for vid, d in loads.items() if d[1] == 'P0'}
         R.check(sorted(lane.values()) == [0, 1, 2, 3], 'fillAes1Rx4<%s> state lanes loaded from state blocks 0-3' % soft, where, expected=[0, 1, 2, 3], found=sorted(lane.values()), rule='SPEC-AESPATTERN')
         if len(loops) == 1:
@@ -473,23 +475,22 @@ def rule_patterns(ctx, R, F):
             order_ok = max(body.index(r) for r in rs) < min(body.index(s_) for s_ in stores) if rs and stores else False
             adv = [x for x in body if x[0] == 'advance']
             R.check(st_ok and order_ok and len(adv) == 1 and adv[0][2:] == ('+=', 64), 'fillAes1Rx4<%s> output' % soft, where, expected='after the 4 rounds store state J to output block J, advance 64 bytes', found='stores %s advance %s' % (sorted((x[1], x[2], lane.get(x[3])) for x in stores), adv), rule='SPEC-AESPATTERN')
-            R.check('outputEnd' in loops[0][1] or '<' in loops[0][1], 'fillAes1Rx4<%s> loop bound' % soft, where, expected='while (outptr < outputEnd)', found=loops[0][1], rule='SPEC-AESPATTERN')
             for r in rs:
                 R.check(r[5] == sv, 'fillAes1Rx4<%s> AES flavour' % soft, where, expected=soft, found=r[5], rule='AES-SWITCH')
         else:
             R.violation('fillAes1Rx4<%s> structure' % soft, where, expected='one loop', found=len(loops), rule='SPEC-AESPATTERN')
         post = [x for x in A.seq[A.seq.index(loops[0]) + 1:] if x[0] == 'store'] if loops else []
         R.check(sorted((x[1], x[2], lane.get(x[3])) for x in post) == [('P0', j, j) for j in range(4)], 'fillAes1Rx4<%s> writes the state back' % soft, where, expected='state block J = state J', found=sorted((x[1], x[2], lane.get(x[3])) for x in post), rule='SPEC-AESPATTERN')
-        # end pointer covers exactly outputSize
-        endp = [x for x in A.seq if x[0] == 'ptrinit' and x[2] == 'outputEnd']
-        R.check(bool(endp) and endp[0][4] == 'outputSize', 'fillAes1Rx4<%s> fills exactly outputSize bytes' % soft, where, expected='outputEnd = outptr + outputSize', found=endp, rule='SPEC-AESPATTERN')
+        # (that exactly outputSize bytes are produced is decided by AES-COVER)
 
         # ---------------- AesGenerator4R
         f, A, loops, consts, loads, where = check_fn('fillAes4Rx4<%s>' % soft, sv, keys4, d4[0], 'fill')
-        name_of = {vid: v['name'] for vid, v in A.vars.items()}
+        name_of = {}
         for kn, (kb, ln) in sorted(keys4.items()):
-            got = [b for vid, b in consts.items() if name_of[vid] == kn]
-            R.check(got == [kb], 'fillAes4Rx4<%s> %s' % (soft, kn), where, expected=kb.hex(), found=[g.hex() if g else None for g in got], rule='SPEC-AESKEYS')
+            got = [vid for vid, b in consts.items() if b == kb]
+            R.check(len(got) == 1, 'fillAes4Rx4<%s> %s' % (soft, kn), where, expected=kb.hex(), found='%d constants with this value; constants present: %s' % (len(got), sorted(b.hex() for b in consts.values() if b)[:10]), rule='SPEC-AESKEYS')
+            for g_ in got:
+                name_of[g_] = kn
         lane = {vid: d[2] for vid, d in loads.items() if d[1] == 'P0'}
         if len(loops) == 1:
             body = loops[0][2]
@@ -512,19 +513,18 @@ def rule_patterns(ctx, R, F):
 
         # ---------------- AesHash1R
         f, A, loops, consts, loads, where = check_fn('hashAes1Rx4<%s>' % soft, sv, keysh, dh, 'hash')
-        name_of = {vid: v['name'] for vid, v in A.vars.items()}
         st_lane = {}
         for j in range(4):
             kb = keysh['state%d' % j][0]
             got = [vid for vid, b in consts.items() if b == kb]
-            R.check(len(got) == 1 and name_of[got[0]] == 'state%d' % j, 'hashAes1Rx4<%s> state%d' % (soft, j), where, expected=kb.hex(), found=[consts[g].hex() for g in got] or [b.hex() for v_, b in consts.items() if name_of[v_] == 'state%d' % j], rule='SPEC-AESKEYS')
+            R.check(len(got) == 1, 'hashAes1Rx4<%s> state%d' % (soft, j), where, expected=kb.hex(), found='%d constants with this value; constants present: %s' % (len(got), sorted(b.hex() for b in consts.values() if b)[:8]), rule='SPEC-AESKEYS')
             if got:
                 st_lane[got[0]] = j
         xk = {}
         for kn in ('xkey0', 'xkey1'):
             kb = keysh[kn][0]
             got = [vid for vid, b in consts.items() if b == kb]
-            R.check(len(got) == 1, 'hashAes1Rx4<%s> %s' % (soft, kn), where, expected=kb.hex(), found=[b.hex() for v_, b in consts.items() if name_of[v_] == kn], rule='SPEC-AESKEYS')
+            R.check(len(got) == 1, 'hashAes1Rx4<%s> %s' % (soft, kn), where, expected=kb.hex(), found='%d constants with this value' % len(got), rule='SPEC-AESKEYS')
             if got:
                 xk[got[0]] = kn
         if len(loops) == 1:
